@@ -421,8 +421,12 @@ def c09_views(client, d, res, rng, version='1.39'):
 # C10
 # ---------------------------------------------------------------------------
 def _rp_facets(d, u):
-    inv = {rc: tuple(sorted(f.items()))
-           for (rp, rc), f in d.inventories.items() if rp == u}
+    # inventories keyed by class *id*: renaming a class (PUT
+    # /resource_classes/{name} at 1.2-1.6) changes no provider
+    pid = d.providers[u]['id']
+    inv = {r['resource_class_id']: tuple(sorted(
+        (k, v) for k, v in r.items() if k != 'id'))
+        for r in d.raw['inventories'] if r['resource_provider_id'] == pid}
     tr = frozenset(t for (rp, t) in d.rp_traits if rp == u)
     ag = frozenset(a for (rp, a) in d.rp_aggs if rp == u)
     return inv, tr, ag
